@@ -141,11 +141,10 @@ func suiteC16ErrPos(cfg Config, res *Result) {
 			continue
 		}
 		e := o.Err
-		if e.Filename == "" && e.Token != nil && e.Token.Filename != "" {
-			// an execution error positioned by its token: the token names the source it was read from
-			cp := *e
-			cp.Filename = e.Token.Filename
-			e = &cp
+		if e.Filename == "" && e.Line > 0 {
+			// a position without the source it lies in points nowhere (D68)
+			res.add(Finding{Kind: "oracle", Proj: "positions", Sig: "c16-position-without-file", Case: c.String(), Impl: fmt.Sprintf("%s :%d:%d %s", o.Class, e.Line, e.Column, o.Msg), Model: "an error that carries a position names the source the position lies in"})
+			continue
 		}
 		if i < 4 {
 			res.sample(fmt.Sprintf("%s => %s %s:%d:%d", c.String(), o.Class, e.Filename, e.Line, e.Column))
